@@ -533,8 +533,13 @@ func ruleUniqueAndFK(c *Ctx, m *Model, r *E1) {
 			}
 		case "ClassSequence", "ProjectSequence", "BatchSequence":
 			fk := funcKey(s.Fn)
-			ok := strings.HasSuffix(fk, ".CreateClass") || strings.HasSuffix(fk, ".genProjectID") || strings.HasSuffix(fk, ".getBatchSeqNo")
-			c.Check(ok, "C14.SEQ", fk+"#"+s.Table.Name+"."+s.Method, p.Pos(s.Call.Pos()), "sequence tables are written only by the creation paths checked above")
+			gate := map[string]string{"ClassSequence": "base.CreateClass", "ProjectSequence": "base.CreateProject", "BatchSequence": "base.CreateBatch"}[s.Table.Name]
+			only, chain := m.reachedOnlyThrough(s.Fn, m.entryFns(gate))
+			why := ""
+			if !only {
+				why = ": reached without passing through it by " + chain
+			}
+			c.Check(only, "C14.SEQ", fk+"#"+s.Table.Name+"."+s.Method, p.Pos(s.Call.Pos()), s.Table.Name+" is written only on call chains through the "+gate+" handler (whose read-use-save+1 discipline is checked above)"+why)
 		}
 		if s.Kind == "delete" || s.Kind == "deleterange" {
 			deleted[s.Table.Name] = true
